@@ -37,8 +37,8 @@ SCEN = {
     "area_langmuir[limits]": [("UiO-66(Zr)",), ("NaY",)],
     "t_plot": [("MCM-41",), ("NaY",)],
     "t_plot[Halsey,limits]": [("SiO2",), ("MCM-41",)],
-    "alpha_s": [("SiO2", "MCM-41"), ("MCM-41", "MCM-41")],
-    "alpha_s[langmuir,limits]": [("SiO2", "MCM-41")],
+    "alpha_s": [("SiO2", "MCM-41"), ("synth-BET", "MCM-41")],
+    "alpha_s[langmuir,limits]": [("SiO2", "MCM-41"), ("SiO2", "synth-Langmuir")],
     "dr_plot": [("Takeda 5A",), ("UiO-66(Zr)",)],
     "dr_plot[limits]": [("UiO-66(Zr)",), ("Takeda 5A",)],
     "da_plot": [("Takeda 5A",), ("UiO-66(Zr)",)],
@@ -74,6 +74,10 @@ def enc_arr(a, idx):
         v = float(a[i])
         out.append(dec_enc(v) if math.isfinite(v) else NAN)
     return out
+
+
+def lab(s):
+    return "/".join(str(s[k]) for k in ("pm", "pu", "lb", "lu", "mb", "mu", "tu"))
 
 
 def imax_of(enc):
@@ -177,7 +181,7 @@ def main(tier, seed):
                 allp = sorted(tuple(r) for r in cover[an]["P"])
                 alll = sorted(tuple(r) for c in cover[an]["L"] for r in c["reps"])
                 allm = sorted(tuple(r) for c in cover[an]["M"] for r in c["reps"])
-                for _ in range(12 if thorough else 3):
+                for _ in range(24 if thorough else 3):
                     p, l, m = rng.choice(allp), rng.choice(alll), rng.choice(allm)
                     changes.append(("product", "mixed", {"pm": p[0], "pu": p[1], "lb": l[0], "lu": l[1], "mb": m[0], "mu": m[1], "tu": rng.choice(("K", "degC"))}))
             if entry == "psd_dft":      # the real kernel fit takes 7-17 s per run: a seeded handful of changes
@@ -209,6 +213,8 @@ def main(tier, seed):
                             own = labels_of(f)
                             chg = {k: tgt[k] for k in tgt if tgt[k] != (sS0 if i == 0 else sR0)[k]}
                             f = to_rep(f, dict(own, **chg))
+                            if kind == "product":      # ... and exported / re-imported in the new representation
+                                f = json_roundtrip(f)
                         elif variant == "json":
                             f = json_roundtrip(f)
                         elif variant == "scale" and is_changed:
@@ -236,7 +242,7 @@ def main(tier, seed):
     t_oracle = time.time()
     dbg(f"plan oracle done in {t_oracle - t_runs:.1f}s")
 
-    limit = 40 if thorough else 12
+    limit = 200 if thorough else 16
     trecs = []
     for v, ans in zip(variants, answers):
         if not ans["judged"]:
@@ -299,7 +305,8 @@ def main(tier, seed):
             elif cls not in ("ok",):
                 drift += 1
                 if drift <= 5:
-                    run.note(f"MODEL-DRIFT {v.entry} {v.role}:{v.kind}->{v.to}: the access-plan model predicts '{cls}' but the results conform")
+                    run.note(f"MODEL-DRIFT {v.entry} {v.names} sample {lab(v.sS)} other {lab(v.sR)}: the access-plan model predicts '{cls}' but the recorded "
+                             "results conform within tolerance (divergence too small to observe there, or the code no longer matches the transcription)")
             continue
         coarse = sorted({COARSE.get(c, c) for c in judged})
         sig = {"site": v.an, "plan_class": cls, "observed": "+".join(coarse)}
